@@ -20,6 +20,7 @@ import (
 	gsmsg "github.com/ipfs/go-graphsync/message"
 	"github.com/ipfs/go-graphsync/responsemanager/hooks"
 	"github.com/ipfs/go-graphsync/responsemanager/responseassembler"
+	"github.com/ipfs/go-graphsync/verifhook"
 )
 
 var log = logging.Logger("gs-queryexecutor")
@@ -108,6 +109,10 @@ func (qe *QueryExecutor) ExecuteTask(_ context.Context, pid peer.ID, task *peert
 		if _, isPaused := err.(hooks.ErrPaused); !isPaused {
 			span.SetStatus(codes.Error, err.Error())
 		}
+	}
+	if verifhook.Enabled {
+		// the last transaction is queued; its message may go out before the task is reported finished
+		verifhook.Yield("queryexecutor.beforeFinishTask", string(pid), task.Topic)
 	}
 	qe.manager.FinishTask(task, pid, err)
 	log.Debugw("finishing response execution", "id", rt.Request.ID(), "peer", pid.String(), "root_cid", rt.Request.Root().String())
